@@ -164,6 +164,10 @@ def run_phase_case(case, ctx):
     def build():
         if destkind == 'probe':
             dest = Probe('dest')
+        elif destkind == 'pinput_uninit':
+            # persistent, nothing saved, no initdef: still uninitialised while the circuit is
+            # being initialised; its validator rejects every value the harness sends
+            dest = edzed.Input('dest', persistent=True, allowed=['vf-never-sent'])
         elif destkind in ('input', 'pinput'):
             dest = edzed.Input('dest', initdef=0, persistent=destkind == 'pinput')
         elif destkind == 'counter':
@@ -244,6 +248,12 @@ def run_phase_case(case, ctx):
             await asyncio.sleep(1)      # gate.init_async is sleeping (virtual time)
             res['initialising_state'] = (circuit.is_ready(), task.done())
             do_send(phase)
+            if destkind == 'pinput_uninit':
+                try:
+                    await circuit.shutdown()
+                except Exception as err:    # pylint: disable=broad-except
+                    res['shutdown_exc'] = repr(err)
+                return
             await circuit.wait_init()
             await circuit.shutdown()
             return
@@ -291,13 +301,18 @@ def run_phase_case(case, ctx):
     loop, _, exc = vloop.run(main)
     edzed.reset_circuit()
     if exc is not None and not isinstance(exc, vloop.Deadlock):
-        raise exc
+        res['main_exc'] = exc
     return res, hist
 
 
 def judge_phase(case, res, ctx):
     import edzed
     phase, shape, destkind = case['phase'], SHAPES[case['shape']], case['dest']
+    if res.get('main_exc') is not None:
+        raise core.Violation(
+            'run-ended-with-unexpected-exception',
+            f"phase={phase} dest={destkind}: the scenario (start, send, shutdown) ended with "
+            f"{res['main_exc']!r}; send() outcome {res.get('outcome')}")
     if 'outcome' not in res:
         raise core.Violation('harness-phase-not-reached', f"phase {phase} never reached")
     ctx.count('sends_judged')
@@ -334,7 +349,18 @@ def judge_phase(case, res, ctx):
             raise core.Violation('non-string-source-accepted', f"{where}: outcome {out}, recv {recv}")
         return
     ctx.count('delivered')
-    if shape['value'] is not True and destkind in ('input', 'pinput', 'counter'):
+    if destkind == 'pinput_uninit' and shape['value'] is True:
+        # a running (initialising) circuit: the event is handled, the validator rejects the value
+        ctx.count('rejected_by_uninitialised_persistent_block')
+        if out != ('ret', False) or res['dest_output'] is not edzed.UNDEF:
+            raise core.Violation(
+                'return-value', f"{where}: send() outcome {out}, destination output "
+                f"{res['dest_output']!r}; expected the handler's result False")
+        if res.get('shutdown_exc'):
+            raise core.Violation('run-ended-with-unexpected-exception',
+                                 f"{where}: shutdown() raised {res['shutdown_exc']}")
+        return
+    if shape['value'] is not True and destkind in ('input', 'pinput', 'pinput_uninit', 'counter'):
         # 'put' without its value: a parameter error reported to the caller (see C09/C20)
         if out[:2] != ('exc', 'TypeError'):
             raise core.Violation('missing-value-not-reported', f"{where}: outcome {out}")
@@ -459,6 +485,10 @@ def gen(ctx):
             continue
         yield {'phase': phase, 'shape': shape, 'dest': dest, 'byobj': i % 2 == 0,
                'val': [1, 0, 3, False, 7, '', None][i % 7], 'enum': True}
+    for k in range(len(SHAPES)):
+        if k % ctx.nshards == ctx.shard:
+            yield {'phase': 'initialising', 'shape': k, 'dest': 'pinput_uninit', 'byobj': k % 2 == 0,
+                   'val': [1, 0, 3, False, 7, '', None][k % 7], 'enum': True}
     extra = 60 if ctx.tier == 'quick' else 30000
     for _ in range(extra):
         yield {'phase': rng.choice(PHASES), 'shape': rng.randrange(len(SHAPES)),
